@@ -66,7 +66,7 @@ def opLoop (args : List String) (impl : String) : Verdict :=
     let label := "loop:" ++ String.ofList (tag.toList.takeWhile Char.isAlpha) ++ ":b=" ++ toString batch ++ (if hc then ":hc" else "") ++ (if pc then ":pc" else "")
     let imp := parseKvs impl " "
     if kvLookup imp "newpanic" == "1" then l1 label "C08,C15: Server::new panicked on a valid configuration" else
-    if kvLookup imp "panic" ≠ "0" then l1 label "C08,C15,C18: process_events panicked" else
+    if kvLookup imp "panic" ≠ "0" then l1 label "C08,C09,C15,C18: process_events panicked (the requests the call had accepted get no reply, the worker is gone)" else
     let obsS := kvLookup imp "obs"
     let obs := if obsS == "-" then [] else obsS.splitOn ","
     -- L1 -------------------------------------------------------------------------------------
